@@ -6,6 +6,7 @@ func init() {
 	vRegister("H_Oracle", H_Oracle)
 	vRegister("H_AuditID", H_AuditID)
 	vRegister("H_GetInfo", H_GetInfo)
+	vRegister("H_GetInfoBytes", H_GetInfoBytes)
 	vRegister("H_Alias", H_Alias)
 }
 
@@ -164,6 +165,33 @@ func H_GetInfo() {
 	_, known := arches[vLower(s1)]
 	vReach(vNot(known), "cover.getinfo.unknown")
 	vAssert(vImplies(vNot(known), e1 != nil), "C12.unknown_unsupported")
+}
+
+// H_GetInfoBytes: the same question on byte-vector strings (every string of
+// "len" 7-bit ASCII characters), so that lookups which order strings, search a
+// sorted list or look at prefixes are decided too: GetInfo succeeds, with the
+// required table, iff the lower-cased name is one of the spellings that have a
+// table; every other string is unsupported.
+func H_GetInfoBytes() {
+	s := vBytesStr("s", vParamInt("len"))
+	var info *Info
+	var err error
+	code := vRun(func() { info, err = GetInfo(s) })
+	vAssert(code == 0, "C12.getinfo_nopanic")
+	if code != 0 {
+		return
+	}
+	ls := vLower(s)
+	hitAny := false
+	for _, sp := range []string{"amd64", "x86_64", "386", "i386", "arm64", "aarch64", "arm", "x32"} {
+		want, _ := vWantInfo(sp)
+		hit := ls == sp
+		hitAny = vOr(hitAny, hit)
+		vAssert(vImplies(hit, vAnd(err == nil, info == want)), "C12.alias_bytes@"+sp)
+	}
+	vAssert(vImplies(vNot(hitAny), vAnd(err != nil, info == nil)), "C12.unsupported_bytes")
+	vReach(hitAny, "cover.getinfo_bytes.ok")
+	vReach(vNot(hitAny), "cover.getinfo_bytes.err")
 }
 
 // known-finding predicates (active only while listed as open)
